@@ -61,3 +61,102 @@ def assigned_attrs(fn, attr):
                 if U.is_self_attr(x, attr) and isinstance(x.ctx, ast.Store):
                     out.append(n)
     return out
+
+
+# ---------------------------------------------------------------------------
+# path feasibility over a finite order domain (no solver): constraints `name ? const`
+
+_OPS = {ast.Lt: {'lt'}, ast.LtE: {'lt', 'eq'}, ast.Gt: {'gt'}, ast.GtE: {'gt', 'eq'}, ast.Eq: {'eq'}, ast.NotEq: {'lt', 'gt'}}
+_FLIP = {'lt': 'gt', 'gt': 'lt', 'eq': 'eq'}
+_ALL = frozenset(('lt', 'eq', 'gt'))
+
+
+def _constraints(test, truth):
+    """[(name, const, allowed-set)] implied by `test` evaluating to `truth`; [] when not of a recognised shape."""
+    if isinstance(test, ast.UnaryOp) and isinstance(test.op, ast.Not):
+        return _constraints(test.operand, not truth)
+    if isinstance(test, ast.Name):
+        return [(test.id, 0, {'lt', 'gt'} if truth else {'eq'})]
+    if isinstance(test, ast.Compare) and len(test.ops) == 1 and type(test.ops[0]) in _OPS:
+        a, b = test.left, test.comparators[0]
+        allowed = set(_OPS[type(test.ops[0])])
+        if isinstance(a, ast.Constant) and isinstance(b, ast.Name):
+            a, b = b, a
+            allowed = {_FLIP[x] for x in allowed}
+        if isinstance(a, ast.Name) and isinstance(b, ast.Constant) and isinstance(b.value, (int, float)) and not isinstance(b.value, bool):
+            return [(a.id, b.value, allowed if truth else set(_ALL) - allowed)]
+        return []
+    if isinstance(test, ast.BoolOp):
+        if isinstance(test.op, ast.And) and truth or isinstance(test.op, ast.Or) and not truth:
+            out = []
+            for v in test.values:
+                out.extend(_constraints(v, truth))
+            return out
+    return []
+
+
+def _assigned_names(node):
+    e = node_expr(node)
+    out = set()
+    if e is None:
+        return out
+    if node.kind in ('for',):
+        for n in ast.walk(node.stmt.target):
+            if isinstance(n, ast.Name):
+                out.add(n.id)
+    for n in walk_no_nested(e):
+        if isinstance(n, ast.Name) and isinstance(n.ctx, ast.Store):
+            out.add(n.id)
+    return out
+
+
+def feasible_path(cfg, start, goal, stop=None, edge_ok=normal, first_edges=None, init=None, limit=20000):
+    """A path from `start` to a node satisfying `goal` that is consistent with the branch conditions of the form
+    `name <op> constant` / truthiness of a name met on the way (a name's facts are forgotten when it is assigned).
+    Returns the path [(node, edge kind)] or None."""
+    def apply(state, cons):
+        st = dict(state)
+        for name, c, allowed in cons:
+            cur = st.get((name, c), _ALL)
+            new = frozenset(cur) & frozenset(allowed)
+            if not new:
+                return None
+            st[(name, c)] = new
+            # a fact about another constant of the same name: keep it simple - only consistent facts on the same constant
+        return st
+
+    init_state = dict(init or {})
+    stack = []
+    for d, k in start.succ:
+        if first_edges is not None and not first_edges(start, d, k):
+            continue
+        if edge_ok is None or edge_ok(start, d, k):
+            stack.append((d, k, init_state, ((start, ''),)))
+    seen = set()
+    steps = 0
+    while stack:
+        node, k, state, path = stack.pop()
+        steps += 1
+        if steps > limit:
+            return path      # give up conservatively: report a (possibly infeasible) path
+        key = (node.id, tuple(sorted((kk, tuple(sorted(v))) for kk, v in state.items())))
+        if key in seen:
+            continue
+        seen.add(key)
+        path2 = path + ((node, k),)
+        if goal(node):
+            return list(path2)
+        if stop is not None and stop(node):
+            continue
+        assigned = _assigned_names(node)
+        st = {kk: v for kk, v in state.items() if kk[0] not in assigned}
+        for d, kk in node.succ:
+            if edge_ok is not None and not edge_ok(node, d, kk):
+                continue
+            st2 = st
+            if node.kind in ('if', 'while') and kk in ('T', 'F'):
+                st2 = apply(st, _constraints(node.stmt.test, kk == 'T'))
+                if st2 is None:
+                    continue
+            stack.append((d, kk, st2, path2))
+    return None
